@@ -430,6 +430,43 @@ def r6_encoding_identity(ctx):
         ctx.ob(f.where, "the elements' codes are joined in list order and labelled with that common encoding; row lengths are the elements' lengths", ok, c, key="C06-R6|list-join")
 
 
+def r8_strict_text_and_private_tables(ctx):
+    """(a) the str branch of encode turns text into bytes strictly: a character that cannot be represented must raise, not be dropped or replaced (`errors=`
+    other than 'strict' silently shortens the text); (b) the accessors of the alphabet hand out new lists, never the list the lookup tables are rebuilt
+    from (a caller's `labels.reverse()` would redefine the shared encoding); (c) dict caches of this module are keyed by everything they depend on."""
+    ix = ctx.index
+    f = ix.func(EA_MOD, "OneToOneEncoding._encode_string")
+    conv = [c for c in func_calls(f.node) if u(c.func) in ("bytes", "bytearray") or (isinstance(c.func, ast.Attribute) and c.func.attr == "encode" and u(c.func.value) == f.params[1])]
+    ctx.floor("text-to-bytes conversions in _encode_string", len(conv), 1)
+    for c in conv:
+        errs = [k.value for k in c.keywords if k.arg == "errors"]
+        if len(c.args) >= 3 and u(c.func) in ("bytes", "bytearray"):
+            errs.append(c.args[2])
+        ok = all(isinstance(e, ast.Constant) and e.value == "strict" for e in errs)
+        enc = [k.value for k in c.keywords if k.arg == "encoding"] + list(c.args[1:2])
+        ok_enc = all(isinstance(e, ast.Constant) and str(e.value).lower() in ("ascii", "latin-1", "latin1", "iso-8859-1") for e in enc) and bool(enc)
+        ctx.ob(f.where, "text is converted to bytes strictly (one byte per character; a character outside the byte range raises instead of being dropped)", ok and ok_enc, u(c),
+               key="C06-R8|strict-bytes")
+    from .c20 import _analysis
+    an = _analysis(ctx)
+    n = 0
+    for qn in ("AlphabetEncoding.get_alphabet", "AlphabetEncoding.get_labels"):
+        key = (ENC_MOD, qn)
+        if key not in an.summaries:
+            continue
+        n += 1
+        fi = an.funcs[key]
+        ret = an.summaries[key].returns
+        shared = sorted(str(t) for t in ret if isinstance(t, tuple))
+        attrs = [u(r.value) for r in body_walk(fi.node) if isinstance(r, ast.Return) and isinstance(r.value, ast.Attribute) and u(r.value.value) == "self"]
+        ctx.ob(fi.where, f"{qn} returns a new list (the encoding's own tables are not reachable from the result)", not shared and not attrs, f"return provenance {sorted(map(str, ret))} {attrs}",
+               key=f"C06-R8|fresh-alphabet|{qn}")
+    ctx.floor("alphabet accessors with a return summary", n, 2)
+    from .. import memo
+    m = memo.check_dict_caches(ctx, [EA_MOD, ENC_MOD], rule_prefix="C06-R8")
+    ctx.count("dict-cache stores examined", m)
+
+
 from ..through_time import make_rule as _mk_tt
 _through_time = _mk_tt("C06")
 
@@ -443,6 +480,7 @@ RULES = [
     ("C06-R6", r6_encoding_identity),
     ("C06-R7", _assigned_values_encoded),
     ("C06-T1", _through_time),
+    ("C06-R8", r8_strict_text_and_private_tables),
 ]
 
 
